@@ -208,6 +208,55 @@ func c08Sanitize(m *AMsg) {
 	}
 }
 
+// gFeatureTraffic: perfectly ordinary messages shaped after what the proxy's
+// feature code looks at - dialog-creating and in-dialog requests and their
+// responses with and without tags, Subscription-State, Expires, Route /
+// Record-Route - over a handful of Call-IDs so that a sequence revisits the
+// same dialog (known, unknown, dissolved). Nothing hostile about the syntax:
+// the hostility is the combination and the order.
+func gFeatureTraffic(rt *rapid.T, viaHost string) ([]byte, string) {
+	method := rapid.SampledFrom([]string{"INVITE", "BYE", "NOTIFY", "NOTIFY", "SUBSCRIBE", "ACK", "CANCEL", "INFO", "UPDATE", "REGISTER", "OPTIONS", "REFER", "MESSAGE", "PRACK", "PUBLISH"}).Draw(rt, "f.method")
+	dlg := rapid.IntRange(1, 4).Draw(rt, "f.dialog")
+	fromTag := rapid.SampledFrom([]string{";tag=f%d", ";tag=f%d", ";tag=f%d", ""}).Draw(rt, "f.fromtag")
+	toTag := rapid.SampledFrom([]string{";tag=t%d", ";tag=t%d", ""}).Draw(rt, "f.totag")
+	if fromTag != "" {
+		fromTag = fmt.Sprintf(fromTag, dlg)
+	}
+	if toTag != "" {
+		toTag = fmt.Sprintf(toTag, dlg)
+	}
+	swap := rapid.Bool().Draw(rt, "f.other direction")
+	from, to := "<sip:alice@a.example>"+fromTag, "<sip:bob@"+rapid.SampledFrom([]string{"b.example", "static.test", "svc.test"}).Draw(rt, "f.tohost")+">"+toTag
+	if swap {
+		from, to = "<sip:bob@b.example>"+strings.Replace(toTag, ";tag=t", ";tag=t", 1), "<sip:alice@a.example>"+fromTag
+	}
+	extra := ""
+	if method == "NOTIFY" || rapid.IntRange(0, 5).Draw(rt, "f.substate anyway") == 0 {
+		if ss := rapid.SampledFrom([]string{"active", "active;expires=60", "pending", "terminated", "terminated;reason=timeout", "Terminated", ""}).Draw(rt, "f.substate"); ss != "" {
+			extra += "Subscription-State: " + ss + "\r\nEvent: presence\r\n"
+		}
+	}
+	if e := rapid.SampledFrom([]string{"", "", "0", "60", "3600", "2147483647"}).Draw(rt, "f.expires"); e != "" {
+		extra += "Expires: " + e + "\r\n"
+	}
+	if rapid.IntRange(0, 3).Draw(rt, "f.route") == 0 {
+		extra += rapid.SampledFrom([]string{"Route: <sip:127.0.0.77:5060;lr>\r\n", "Route: <sip:127.0.0.77:5060;lr>, <sip:127.0.0.78:5070;lr>\r\n", "Route: <sip:127.0.0.78:5070;lr;transport=tls>\r\n", "Record-Route: <sip:127.0.0.78:5070;lr>\r\n"}).Draw(rt, "f.routehdr")
+	}
+	callID := fmt.Sprintf("feature-%d", dlg)
+	cseq := rapid.IntRange(1, 3).Draw(rt, "f.cseq")
+	if rapid.IntRange(0, 2).Draw(rt, "f.response") == 0 {
+		code := rapid.SampledFrom([]int{100, 180, 200, 202, 302, 404, 481, 487, 500, 603}).Draw(rt, "f.status")
+		vias := "Via: SIP/2.0/UDP 127.0.0.77:5060;branch=z9hG4bKp" + callID + "\r\n"
+		if v2 := rapid.SampledFrom([]string{"UDP", "UDP", "TCP", "TLS", "SCTP", "WS", ""}).Draw(rt, "f.second via"); v2 != "" {
+			vias += "Via: SIP/2.0/" + v2 + " " + viaHost + ":5060;branch=z9hG4bKc" + callID + ";received=" + viaHost + ";rport=5060\r\n"
+		}
+		return []byte(fmt.Sprintf("SIP/2.0 %d Status\r\n%sFrom: %s\r\nTo: %s\r\nCall-ID: %s\r\nCSeq: %d %s\r\n%sContent-Length: 0\r\n\r\n", code, vias, from, to, callID, cseq, method, extra)), fmt.Sprintf("feature traffic: %d to %s", code, method)
+	}
+	ruri := rapid.SampledFrom([]string{"sip:u@svc.test", "sip:svc.test", "sip:sos@svc2.test", "urn:service:sos", "sip:127.0.0.77:5060", "sip:bob@b.example", "sip:bob@static.test"}).Draw(rt, "f.ruri")
+	tr := rapid.SampledFrom([]string{"UDP", "TCP"}).Draw(rt, "f.via transport")
+	return []byte(fmt.Sprintf("%s %s SIP/2.0\r\nVia: SIP/2.0/%s %s:5060;branch=z9hG4bK%s%d;rport\r\nMax-Forwards: 70\r\nFrom: %s\r\nTo: %s\r\nCall-ID: %s\r\nCSeq: %d %s\r\n%sContent-Length: 0\r\n\r\n", method, ruri, tr, viaHost, callID, cseq, from, to, callID, cseq, method, extra)), "feature traffic: " + method + " " + ruri
+}
+
 func gHostileMsg(rt *rapid.T, lab bool) (*AMsg, []string) {
 	m := gAnyMsg(rt, "base", anyOpts{MaxExt: 4, MaxLong: 0, MaxBody: 200})
 	if lab {
@@ -383,7 +432,10 @@ func TestC08(t *testing.T) {
 			var data []byte
 			desc := ""
 			hostile := false
-			switch rapid.IntRange(0, 9).Draw(rt, "kind") {
+			switch rapid.IntRange(0, 12).Draw(rt, "kind") {
+			case 10, 11, 12: // ordinary feature-shaped traffic over a few dialogs
+				data, desc = gFeatureTraffic(rt, "127.0.0.9")
+				V.Class("feature-shaped traffic")
 			case 0: // a plain valid message (state for the next hostile one)
 				m := gAnyMsg(rt, "valid", anyOpts{MaxExt: 3, MaxBody: 100})
 				if m.IsReq {
@@ -484,7 +536,10 @@ func TestC08(t *testing.T) {
 			var conn *labTCPConn
 			for i := 0; i < k; i++ {
 				var data []byte
-				switch rapid.IntRange(0, 4).Draw(rt, "kind") {
+				switch rapid.IntRange(0, 6).Draw(rt, "kind") {
+				case 5, 6:
+					data, _ = gFeatureTraffic(rt, s.uas[1].ip)
+					V.Class("lab: feature-shaped traffic")
 				case 0:
 					n := rapid.IntRange(0, 2000).Draw(rt, "n")
 					data = make([]byte, n)
